@@ -56,7 +56,7 @@ def plain(n):
 LONG5 = ['name', 'path', 'upper(name)', 'lower(name)', "concat(name, 'x')"]
 LONGSEL = LONG5 + ['size'] + ["concat(name, '%d')" % i for i in range(36)]      # one record of > 8 KiB, distinct columns
 COLSETS = [['name'], ['name', 'size'], ['size', 'name', 'is_dir'], ['name', 'size', 'path', 'ext', 'is_dir', 'mode'],
-           ['path'], ['ext', 'name'], ['name', 'path', 'ext', 'size'], ['mode', 'is_dir', 'size', 'name', 'ext'], ['path', 'name'], ['size']]
+           ['path'], ['ext'], ['ext', 'name'], ['name', 'path', 'ext', 'size'], ['mode', 'is_dir', 'size', 'name', 'ext'], ['path', 'name'], ['size']]
 FORMATS = ['json', 'csv', 'html', 'tabs', 'lines']
 
 
